@@ -38,16 +38,19 @@ ARGS = ["|/MBOX-MESSAGE/0", "|/MBOX-MESSAGE/1", "|/MBOX-MESSAGE/2", "|/MBOX-MESS
         "|/MAILDIR-MESSAGE/3", "?/MBOX-MESSAGE/1", "|", "|/MBOX-MESSAGE/"]
 ARGS_MORE = ["|/MBOX-MESSAGE/01", "|/MBOX-MESSAGE/99999999999999999999", "|/MAILDIR-MESSAGE/1000000000", "?", "|x"]
 # about ten representative read-only requests for histories (frame, selector, argument)
-REPS = [("g", "/", ""), ("gp_dir", "/", ""), ("h_get", "/", ""), ("g", "/d", ""), ("gp_plus", "/d", ""),
-        ("h_get", "/d", ""), ("g", "/d/.cache.pygopherd.dir", ""), ("g", "/p.pyg", ""), ("gem", "/", ""),
-        ("g", "/about.txt", ""), ("g", "/z.zip", ""), ("g", "/nofile", "")]
+REPS = [("g", "/", ""), ("gp_dir", "/", ""), ("h_get", "/", ""), ("g", "/d", ""), ("h_get", "/d", ""),
+        ("g", "/d/.cache.pygopherd.dir", ""), ("g", "/p.pyg", ""), ("gem", "/", ""), ("g", "/about.txt", ""),
+        ("g", "/z.zip", ""), ("gp_plus", "/d", ""), ("g", "/nofile", "")]
+# history runs: exhaustive up to maxhist over the first nreps representatives, or (sim) random longer ones
 
 TIERS = {
     "quick": dict(frames=FR_QUICK, sels=SELS, arg_frames=ARG_FRAMES, arg_sels=ARG_SELS, args=ARGS,
-                  hls=["default", "full"], maxhist=2, hist_hls=["full"], sim=0),
+                  hls=["default", "full"], hist=[dict(hl="full", nreps=10, maxhist=2)]),
     "thorough": dict(frames=FR_QUICK + FR_MORE, sels=SELS + SELS_MORE, arg_frames=ARG_FRAMES + ARG_FRAMES_MORE,
-                     arg_sels=ARG_SELS, args=ARGS + ARGS_MORE, hls=["default", "full"], maxhist=3,
-                     hist_hls=["default", "full"], sim=400),
+                     arg_sels=ARG_SELS, args=ARGS + ARGS_MORE, hls=["default", "full"],
+                     hist=[dict(hl="full", nreps=12, maxhist=2), dict(hl="default", nreps=12, maxhist=2),
+                           dict(hl="full", nreps=7, maxhist=3),
+                           dict(hl="full", nreps=12, maxhist=8, sim=400, depth=150)]),
 }
 OPS_A, OPS_B = 60, 25            # Bounded: environment operations <= OPS_A + OPS_B * (nodes of the tree)
 
@@ -238,7 +241,15 @@ def split_id(rid):
 
 
 def main(chk, replay=None):
+    import time
     from harness import c03_lib as L
+    tm = {}
+    t_0 = time.time()
+
+    def lap(name):
+        nonlocal t_0
+        tm[name] = round(tm.get(name, 0) + time.time() - t_0, 1)
+        t_0 = time.time()
     t = TIERS[chk.tier]
     defects = L.known_defects(chk)
     lists = read_conf_lists()
@@ -280,6 +291,7 @@ def main(chk, replay=None):
         finally:
             tlc.cleanup(res)
         n_req = len(cases)
+        lap("mc_req")
         evidence["model_states_per_pc"] = pcs
         evidence["model_closed_states_per_site"] = sites
         missing = [x for x in ("select", "parse", "lookup", "entry", "write", "catchP", "catchS", "escape", "finish", "closed")
@@ -297,24 +309,51 @@ def main(chk, replay=None):
                 traces.append({"id": "req:" + rid, "init": {"prop": "C03", "hl": hl}, "events": evs, "extras": extras,
                                "case": {"mode": "req", "frame": f, "selarg": s, "hl": hl, "site": site, "rq": rq,
                                         "model_proto": mproto, "model_kind": mkind}})
+        lap("replay_req")
         # 2. design model, histories: self-composition, exhaustive up to MaxHist
         n_hist = 0
         hist_stats = []
-        for hl in t["hist_hls"]:
+        seen_hist = set()
+        for run in t["hist"]:
+            hl = run["hl"]
             bytecode = hl == "full"
-            cfgh = CFG % dict(spec="HistSpec", props="INVARIANT HistoryFree")
-            resh = tlc.check_model("MC_C03_hist", "MC_C03_hist_run.cfg", dump=True, timeout=2400, continue_=True,
-                                   extra_files=dict(extra([hl], t["maxhist"], bytecode), **{"MC_C03_hist_run.cfg": cfgh}))
-            try:
-                if resh["inv_violations"]:
-                    chk.model_violation("MC_C03_hist", sorted(set(resh["inv_violations"])), resh["out"][-3000:])
-                hcases = {}
-                for st in iter_dump_states(resh["dump"], wanted={"pc", "phase", "r0", "hdone", "site"}):
-                    if st["pc"] == "closed" and st["phase"] == "final":
-                        hcases[(st["r0"], tuple(st["hdone"]))] = st["site"]
-            finally:
-                tlc.cleanup(resh)
-            hist_stats.append({"hl": hl, "states": resh["distinct"], "generated": resh["generated"], "histories": len(hcases)})
+            xf = {"MC_C03_consts.tla": consts_module(L, lists, t, defects, bytecode, [hl], run["maxhist"], REPS[:run["nreps"]])}
+            hcases = {}
+            if not run.get("sim"):
+                xf["MC_C03_hist_run.cfg"] = CFG % dict(spec="HistSpec", props="INVARIANT HistoryFree")
+                resh = tlc.check_model("MC_C03_hist", "MC_C03_hist_run.cfg", dump=True, timeout=2400, continue_=True,
+                                       extra_files=xf)
+                try:
+                    if resh["inv_violations"]:
+                        chk.model_violation("MC_C03_hist", sorted(set(resh["inv_violations"])), resh["out"][-3000:])
+                    for st in iter_dump_states(resh["dump"], wanted={"pc", "phase", "r0", "hdone", "site"}):
+                        if st["pc"] == "closed" and st["phase"] == "final":
+                            hcases[(st["r0"], tuple(st["hdone"]))] = st["site"]
+                finally:
+                    tlc.cleanup(resh)
+            else:                                  # longer histories: random behaviours of the same model
+                import glob
+                import shutil
+                from harness.tlaparse import last_sim_state
+                xf["MC_C03_hist_run.cfg"] = CFG % dict(spec="HistSpec", props="")
+                simdir = tlc.new_scratch("c03sim")
+                try:
+                    resh = tlc.run_tlc("MC_C03_hist", "MC_C03_hist_run.cfg", extra_files=xf, workers=4, seed=chk.seed + 3,
+                                       simulate="file=%s/tr,num=%d" % (simdir, run["sim"] // 4), depth=run["depth"], timeout=1500)
+                    if resh["tlc_error"]:
+                        raise tlc.TLCError("history simulation failed:\n" + resh["out"][-2000:])
+                    for fn in sorted(glob.glob(simdir + "/tr_*")):
+                        st = last_sim_state(fn, wanted={"r0", "hdone", "site"})
+                        if st and len(st.get("hdone", [])) > 2:
+                            hcases[(st["r0"], tuple(st["hdone"]))] = "unknown"
+                finally:
+                    shutil.rmtree(simdir, ignore_errors=True)
+            hcases = {k: v for k, v in hcases.items() if (hl, k) not in seen_hist}
+            seen_hist.update((hl, k) for k in hcases)
+            lap("mc_hist")
+            hist_stats.append({"hl": hl, "mode": "simulate" if run.get("sim") else "exhaustive", "reps": run["nreps"],
+                               "maxhist": run["maxhist"], "states": resh.get("distinct", 0),
+                               "generated": resh.get("generated", 0), "histories": len(hcases)})
             reqs = [_rep_rq(L, i, hl) for i in range(1, len(REPS) + 1)]
             keys = sorted(hcases)
             results = _pool(_run_hist, [(reqs[r0 - 1], [reqs[h - 1] for h in hd]) for r0, hd in keys], hl, bytecode=bytecode)
@@ -325,6 +364,7 @@ def main(chk, replay=None):
                                "case": {"mode": "hist", "hl": hl, "site": hcases[(r0, hd)], "r0": reqs[r0 - 1],
                                         "r0_id": reqs[r0 - 1]["id"], "history": [reqs[h - 1] for h in hd],
                                         "history_ids": [reqs[h - 1]["id"] for h in hd], "bytecode": bytecode}})
+            lap("replay_hist")
         evidence["history_models"] = hist_stats
 
     # 3. code -> spec: TLC judges every recorded connection
@@ -334,10 +374,9 @@ def main(chk, replay=None):
     accepted = rejected = tstates = 0
     tcmd = ""
     for bytecode, idxs in sorted(by_cfg.items()):
-        tv = tlc.validate_traces("TraceC03", "TraceC03_run.cfg",
+        tv = L.validate_parallel("TraceC03", "TraceC03_run.cfg",
                                  [{"id": traces[i]["id"], "init": traces[i]["init"], "events": traces[i]["events"]} for i in idxs],
-                                 extra_files=dict(extra(["default"], 0, bytecode), **{"TraceC03_run.cfg": TRACE_CFG}), chunk=3000,
-                                 timeout=2400)
+                                 extra_files=dict(extra(["default"], 0, bytecode), **{"TraceC03_run.cfg": TRACE_CFG}))
         accepted += tv["accepted"]
         tstates += tv["states"]
         tcmd = tv["cmd"]
@@ -355,6 +394,7 @@ def main(chk, replay=None):
             k = "%s @ %s" % (d["what"], d["id"].split(" :: ")[0] if d["id"].startswith("req:") else "hist")
             evidence.setdefault("drift_summary", {}).setdefault(k, []).append(d["id"])
 
+    lap("trace_validation")
     # 4. vacuity guards and measured coverage
     conns = [(tr, e, x) for tr in traces for e, x in zip(tr["events"], tr["extras"]) if e["ev"] == "conn"]
     if not replay:
@@ -383,9 +423,9 @@ def main(chk, replay=None):
                 "requests: %d histories); non-trivial = distinct request whose connection reached a hazard site of the "
                 "model, logged an EXCEPTION record or lost an exception (%d), plus distinct histories that left at least "
                 "one artefact in the tree before the target request (%d)"
-                % (n_req, t["maxhist"], len(REPS), n_hist, nontrivial, nontrivial_h),
+                % (n_req, max(r["maxhist"] for r in t["hist"]), max(r["nreps"] for r in t["hist"]), n_hist, nontrivial, nontrivial_h),
         "samples": sample, "checker_cmd": res.get("cmd", "") + " ; " + tcmd,
-        "trace_states": tstates, "protocol_classes_observed": protos, "defects_in_model": sorted(defects),
+        "trace_states": tstates, "phase_seconds": tm, "protocol_classes_observed": protos, "defects_in_model": sorted(defects),
         "history_models": evidence.get("history_models", []),
         "drift_summary": {k: {"n": len(v), "e.g.": v[:3]} for k, v in sorted(evidence.get("drift_summary", {}).items())},
         "model_states_per_pc": evidence.get("model_states_per_pc"),
